@@ -65,4 +65,7 @@ Example C05_example :
   tenv_ok G = true /\
   exists e d a, parse_source ops (runes "get(xs, 0, o.p) + [1, 2][0] + len([{a: 1}])") = POk e /\
                 desugar e = Some d /\ check builtin_fenv G 200 1000000000 d = COk (a, TNum).
-Proof. vm_compute. split; [reflexivity|]. do 3 eexists; repeat split. Qed.
+Proof.
+  cbv zeta. split; [vm_compute; reflexivity|].
+  do 3 eexists. split; [vm_compute; reflexivity|]. split; [vm_compute; reflexivity|]. vm_compute; reflexivity.
+Qed.
